@@ -101,7 +101,7 @@ func (d *tDecoder) Decode(b []byte, base unsafe.Pointer, sd *structDesc, maxdept
 
 		f := sd.GetField(fid)
 		if f == nil || f.Type.WT != tp {
-			n, err := thrift.Binary.Skip(b[i:], thrift.TType(tp))
+			n, err := skipValue(b[i:], tp)
 			if err != nil {
 				return i, fmt.Errorf("skip unknown field %d of struct %s err: %w", fid, sd.rt.String(), err)
 			}
@@ -146,6 +146,19 @@ func (d *tDecoder) Decode(b []byte, base unsafe.Pointer, sd *structDesc, maxdept
 		*(*[]byte)(unsafe.Add(base, sd.unknownFieldsOffset)) = ufs.Copy(b)
 	}
 	return i, nil
+}
+
+// skipValue returns the encoded length of the value of type tp at the start of b.
+// The skipper of gopkg indexes a table with the type byte as a signed integer, so
+// a type byte >= 0x80 in corrupted input (the field's own, or the element type of a
+// skipped container at any nesting level) makes it panic; report that as an error.
+func skipValue(b []byte, tp ttype) (n int, err error) {
+	defer func() {
+		if r := recover(); r != nil {
+			n, err = 0, thrift.NewProtocolException(thrift.INVALID_DATA, fmt.Sprintf("skip: invalid data: %v", r))
+		}
+	}()
+	return thrift.Binary.Skip(b, thrift.TType(tp))
 }
 
 func decodeFixedSizeTypes(t ttype, b []byte, p unsafe.Pointer) int {
